@@ -236,6 +236,29 @@ def splits_of(rng, stream, all_limit=40, extra=3):
     return res
 
 
+def model_runs(runs, only=None, maxlen=1024):
+    """run-length encoded outcomes (first, last, outcome index) -> pieces of at most maxlen headers for the Coq sweep;
+    with `only` (a collection of header values) restricted to those headers"""
+    out = []
+    if only is not None:
+        import bisect
+        keep = sorted(set(only))
+        starts = [a for a, _, _ in runs]
+        for h in keep:
+            i = bisect.bisect_right(starts, h) - 1
+            if i >= 0 and runs[i][0] <= h <= runs[i][1]:
+                if out and out[-1][2] == runs[i][2] and out[-1][1] + 1 == h and out[-1][1] - out[-1][0] + 1 < maxlen:
+                    out[-1] = (out[-1][0], h, out[-1][2])
+                else:
+                    out.append((h, h, runs[i][2]))
+        return out
+    for a, b, k in runs:
+        while b - a + 1 > maxlen:
+            out.append((a, a + maxlen - 1, k)); a += maxlen
+        out.append((a, b, k))
+    return out
+
+
 def contexts():
     """receiver contexts of the header table: role x masking option x inside_message x compression x OPEN/CLOSING x failByDrop"""
     out = []
@@ -306,7 +329,9 @@ def run(ck):
     ]
     ck.rule.append("(1) header sweep: first two octets h (all 65536 in thorough, a 4096-value stratified sample in quick) in "
                    "each of 64 receiver contexts (role x masking option x inside_message x compression x OPEN/CLOSING x failByDrop), "
-                   "one fresh OPEN protocol per case, completed by zero octets; (2) generated frame sequences (fragmented text/binary, "
+                   "one fresh OPEN protocol per case, completed by zero octets; every such run is judged by the RFC oracle; the Gallina model "
+                   "re-evaluates the Twisted runs: quick = all sampled headers, thorough = all 65536 headers of the 32 contexts that start OPEN "
+                   "and the 4096-value sample of the 32 CLOSING contexts; (2) generated frame sequences (fragmented text/binary, "
                    "interleaved control frames, close) with one mutated field, fed whole, at every split position (<= 40 octets), octet "
                    "by octet and at random cuts, in both roles, both failure policies, both frameworks. non-trivial = the stream "
                    "reaches processData with >= 2 octets; distinct = distinct (context, stream, segmentation)")
@@ -411,7 +436,8 @@ def run(ck):
 
     # ---------------- (1) header sweep
     ctxs = contexts()
-    hdrs = None if not quick else stratified_headers(ck.rng("headers"))
+    sample_hdrs = stratified_headers(ck.rng("headers"))
+    hdrs = None if not quick else sample_hdrs
     hdrs_small = None if not quick else stratified_headers(ck.rng("headers"), 0)      # aio in quick: the boundary grid only
     sweep_terms, sweep_meta = [], []
     for fw in FWS:
@@ -426,17 +452,15 @@ def run(ck):
                 report_oracle_problems(ck, fw, p["case"], p["result"], [(p["key"], p["what"])])
             for o in part["table"]:
                 ck.bump("hdr_outcome:" + ("fail" if any(e[0] == "drop" or (e[0] == "sendclose" and e[1] == 1002) for e in o["events"]) else "ok"))
-            # model comparison: thorough = every header of every context (tx), quick = the sampled headers
+            # model comparison (tx): quick = the sampled headers of every context; thorough = every header of the 32 contexts
+            # that start OPEN and the stratified 4096-value sample of the 32 CLOSING contexts (CPU budget: the model
+            # costs as much as the implementation here)
             if fw == "tx":
                 pre = []
                 if ctx["inside"]:
                     pre = [bytes.fromhex("01810000000061" if ctx["role"] == "server" else "010161")]
                 tbl = "[" + "; ".join("(%s, %s)" % (coq_events(o["events"]), coq_final(o)) for o in part["table"]) + "]"
-                runs = []
-                for a, b, k in part["runs"]:
-                    while b - a + 1 > 1024:
-                        runs.append((a, a + 1023, k)); a += 1024
-                    runs.append((a, b, k))
+                runs = model_runs(part["runs"], None if (quick or not ctx["closing"]) else sample_hdrs)
                 sweep_terms.append("(%s, %d, [%s], %s, [%s])" % (coq_cfg(ctx), 1 if ctx["closing"] else 0,
                                    ";".join(nlist(x) for x in pre), tbl, "; ".join("(%d,%d,%d)" % t for t in runs)))
                 sweep_meta.append((fw, ctx))
